@@ -295,10 +295,10 @@ def rule_d(rep: Report, idx: SourceIndex, nm: NodeModel) -> None:
 	for need in ('exec', '__exec_impl', '__run_action', '__emit', '__make_event', '__is_prop_list_by', '__stack_pop', '__result'):
 		if need not in meth:
 			raise AnalysisError(f'Procedure.{need} vanished')
-	appends = [(f, n) for f in meth.values() for n in walk_no_nested(f.node) if isinstance(n, ast.Call) and isinstance(n.func, ast.Attribute) and n.func.attr in ('append', 'extend', 'insert') and '__stack' in unparse(n.func.value) and '__stacks' not in unparse(n.func.value)]
+	appends = [(f, n) for f in meth.values() for n in walk_no_nested(X(f)) if isinstance(n, ast.Call) and isinstance(n.func, ast.Attribute) and n.func.attr in ('append', 'extend', 'insert') and '__stack' in unparse(n.func.value) and '__stacks' not in unparse(n.func.value)]
 	r.check(len(appends) == 1 and appends[0][0].name == '__run_action', 'single-append', meth['__run_action'].where, f'results are appended at {[(f.name, unparse(n)) for f, n in appends]}; expected exactly one append in __run_action')
 	ra = meth['__run_action']
-	order = [(n.lineno, 'emit') for n in walk_no_nested(ra.node) if isinstance(n, ast.Call) and unparse(n.func).endswith('__emit')] + [(n.lineno, 'append') for f, n in appends if f is ra]
+	order = [(n.lineno, 'emit') for n in walk_no_nested(X(ra)) if isinstance(n, ast.Call) and unparse(n.func).endswith('__emit')] + [(n.lineno, 'append') for f, n in appends if f is ra]
 	r.check([k for _, k in sorted(order)] == ['emit', 'append'], 'emit-before-append', ra.where, f'__run_action must call __emit (which pops the children\'s results) before appending its own result; order is {sorted(order)}')
 	em = meth['__emit']
 	ecalls = [(n.lineno, 'make_event' if unparse(n.func).endswith('__make_event') else 'emit') for n in walk_no_nested(em.node) if isinstance(n, ast.Call) and (unparse(n.func).endswith('__make_event') or unparse(n.func).endswith('emitter.emit'))]
